@@ -1,6 +1,8 @@
 """C10 — parse results are fixed points: re-parsing or validating changes nothing.
 
-Same model (E3, Core/Adapt.lean) and the same generators as C02.  On every case the real parser accepts:
+Same model (E3, Core/Adapt.lean) and the same generators as C02.  The configuration under test is what the
+apply pass of the parse method returns (`_skip_validation=True`: the parse methods validate their own result
+before returning it, which would hide a result that does not validate).  On every case that pass accepts:
   * parser.validate(cfg) passes;
   * parser.parse_object(cfg) returns the same configuration (compared type-aware: 1 vs 1.0 vs True differ);
   * dump -> parse_string -> dump is byte-identical (yaml and json);
@@ -255,6 +257,85 @@ def default_case(desc, default_wire):
     return a, b
 
 
+# ---------------------------------------------------------------- arguments that have a default
+# adapt_typehints starts with an early-out for scalars equal to the default (passed by the retry of _check_type and
+# by serialize); the model has no default, so this family is judged on the real parser only.
+DEFAULT_FAMILY = [
+    ("int", 1, [1, 2, "1", "2"]),
+    ("float", {"f": "1.0"}, [1, {"f": "1.0"}, "1", {"f": "2.5"}]),
+    ("str", "x", ["x", "y", "1"]),
+    ("bool", True, [True, False, "true"]),
+    ({"t": ["int", "str"]}, {"t": [1, "a"]}, [[1, "a"], {"t": [1, "a"]}, [2, "b"]]),
+    ({"l": "float"}, [{"f": "1.0"}], [[1], [{"f": "1.0"}], [2, "3"]]),
+    ({"s": "int"}, {"s": [1]}, [[1], {"s": [1]}, [2]]),
+    ({"d": ["int", "int"]}, {"d": [[1, 2]]}, [{"d": [["1", 2]]}, {"d": [[1, 2]]}, {"d": [["3", 4]]}]),
+    ({"e": [0, ["red", "green", "blue"]]}, {"e": [0, "red"]}, ["red", "blue", {"e": [0, "red"]}]),
+    ({"l": {"e": [0, ["red", "green", "blue"]]}}, [{"e": [0, "red"]}], [["red"], [{"e": [0, "red"]}], ["blue", "red"]]),
+    ({"u": ["int", "str"]}, 1, [1, "1", "x"]),
+    ({"u": ["none", {"tv": "int"}]}, {"t": [1, 2]}, [[1, 2], {"t": [1, 2]}, None, [3]]),
+]
+
+
+def default_family(ctx: Ctx):
+    from jsonargparse import ArgumentError, ArgumentParser
+
+    for desc, dflt, inputs in DEFAULT_FAMILY:
+        p = ArgumentParser(exit_on_error=False, default_env=False)
+        p.add_argument("--k", type=c02.to_typing(desc), default=c02.to_py(dflt))
+        for inp in inputs:
+            for ch in ("obj", "arg"):
+                if ch == "arg":
+                    text = c02.to_text(inp)
+                    if text is None:
+                        continue
+                try:
+                    if ch == "obj":
+                        cfg = p.parse_object({"k": copy.deepcopy(c02.to_py(inp))}, _skip_validation=True)
+                    else:
+                        cfg = p.parse_args(["--k=" + text], _skip_validation=True)
+                except ArgumentError:
+                    continue
+                ctx.count()
+                if cfg.k is None:
+                    continue
+                sp = second_pass(p, cfg)
+                ctx.count(4)
+                ctx.hist("default_family", "cases")
+                rep = {"kind": "with-default", "desc": desc, "default": dflt, "channel": ch, "input": inp}
+                if sp["validate"] != "ok":
+                    ctx.violation("a parse result does not pass validate() (argument with a default)", dict(rep, what="validate", got=sp["validate"]))
+                if jdump(sp["reparse"]) != jdump({"ok": sp["first"]}):
+                    ctx.violation("parse_object(result) differs from the result (argument with a default)",
+                                  dict(rep, what="reparse", first=sp["first"], reparse=sp["reparse"]))
+                for fmt in ("yaml", "json"):
+                    d = sp["dump_" + fmt]
+                    if d != "same" and not (c02.has_multi_set(sp["first"]) and only_order_differs(d)):
+                        ctx.violation("dump/parse/dump (%s) is not byte-identical (argument with a default)" % fmt,
+                                      dict(rep, what="dump", format=fmt, first=sp["first"], dump=d))
+
+
+def replay_default_family(rp):
+    """re-run one stored case of the family; True = still failing"""
+    from jsonargparse import ArgumentError, ArgumentParser
+
+    p = ArgumentParser(exit_on_error=False, default_env=False)
+    p.add_argument("--k", type=c02.to_typing(rp["desc"]), default=c02.to_py(rp["default"]))
+    try:
+        if rp["channel"] == "obj":
+            cfg = p.parse_object({"k": copy.deepcopy(c02.to_py(rp["input"]))}, _skip_validation=True)
+        else:
+            cfg = p.parse_args(["--k=" + c02.to_text(rp["input"])], _skip_validation=True)
+    except ArgumentError:
+        return False
+    sp = second_pass(p, cfg)
+    print(jdump(sp)[:1500])
+    if rp["what"] == "validate":
+        return sp["validate"] != "ok"
+    if rp["what"] == "reparse":
+        return jdump(sp["reparse"]) != jdump({"ok": sp["first"]})
+    return sp["dump_" + rp["format"]] != "same"
+
+
 # ---------------------------------------------------------------- the check
 def run(ctx: Ctx):
     repo_python_path()
@@ -286,7 +367,8 @@ def run(ctx: Ctx):
     n_acc = 0
     for desc, ch, inp, origin in cases:
         try:
-            obs, cfg, p = c02.real_parse(desc, ch, inp, keep=True)
+            inp = c02.norm_input(ch, inp)
+            obs, cfg, p = c02.real_parse(desc, ch, inp, keep=True, skip_validation=True)
         except Unencodable:
             continue
         ctx.count()
@@ -365,6 +447,8 @@ def run(ctx: Ctx):
     for c in gen[:4]:
         ctx.sample({"type": c[0], "channel": c[1], "input": c[2]})
 
+    default_family(ctx)
+
     # ---- findings -------------------------------------------------------------
     for f in ctx.open_findings():
         if replay_case(ctx, f["witness"], quiet=True):
@@ -384,11 +468,17 @@ def c02_assumptions():
 def replay_case(ctx: Ctx, rp, quiet=False):
     say = (lambda *a: None) if quiet else print
     kind = rp["kind"]
+    if kind == "with-default":
+        return replay_default_family(rp)
     if kind == "default":
-        a, b = default_case(rp["desc"], rp["default"])
+        try:
+            a, b = default_case(rp["desc"], rp["default"])
+        except Exception as ex:  # noqa: BLE001 - re-parsing the defaults fails altogether
+            say("raises", type(ex).__name__)
+            return True
         say("parse_args([]):", jdump(a), " parse_object(that):", jdump(b))
         return jdump(a) != jdump(b)
-    obs, cfg, p = c02.real_parse(rp["desc"], rp["channel"], rp["input"], keep=True)
+    obs, cfg, p = c02.real_parse(rp["desc"], rp["channel"], rp["input"], keep=True, skip_validation=True)
     say("first pass:", jdump(obs))
     if not accepted(obs) or obs["ok"] is None:
         return False
